@@ -40,7 +40,7 @@ def jobs(tier, seed):
     # symbol level: the mode QRCode reports is the mode indicator a reader finds (C01 machinery, only that obligation kept)
     from . import c01
     for c in c01.cases(tier):
-        if c['name'].startswith(('mode:', 'auto:', 'cci:')) and (tier == 'thorough' or not c['name'].startswith('cci:') or 'v10' in c['name']):
+        if c['name'].startswith(('mode:', 'auto:', 'auto-', 'cci:')) and (tier == 'thorough' or not c['name'].startswith('cci:') or 'v10' in c['name']):
             out.append({'name': 'symbol:' + c['name'], 'kind': 'sym', 'case': c, 'cost': c['cost']})
     return out
 
